@@ -111,3 +111,65 @@ func splitFields(s string) []string {
 	}
 	return out
 }
+
+// TestCorpusLines prints corpus/C03/*.ops records for the design-phase witnesses that were
+// repaired (F7, F10, F13) and a few boundary shapes; run with -v and C03_CORPUS=1.
+func TestCorpusLines(t *testing.T) {
+	pv := func(rel ...int64) PepVer { return PepVer{Rel: rel, Post: -1, Dev: -1} }
+	type rec struct {
+		oracle, eco, renc, rs, venc, vs string
+	}
+	var recs []rec
+	sem := func(oracle, eco string, rg Range, v SemVer) {
+		rs := rg.RenderNpm()
+		if eco == "cargo" {
+			rs = rg.RenderCargo()
+		}
+		recs = append(recs, rec{oracle, eco, rg.Enc(), rs, v.Enc(), v.Render()})
+	}
+	// F7: `<0.2 ^0.2` must not match 0.2.0
+	sem("agree", "npm", Range{[]Alt{comps(cm("<", np(0, 2)), cm("^", np(0, 2)))}}, sv(0, 2, 0, nil))
+	// F10: `>=0.1.1 <1 || ~>2` must not match 1.3.3
+	sem("agree", "npm", Range{[]Alt{comps(cm(">=", n3(0, 1, 1)), cm("<", np(1))), comps(cm("~>", np(2)))}}, sv(1, 3, 3, nil))
+	// F13: `~2.1.0 || =1.3.2-b || >=1.2.1` must match 1.3.2-b
+	sem("agree", "npm", Range{[]Alt{comps(cm("~", n3(2, 1, 0))), comps(cm("=", n3p(1, 3, 2, id("b")))), comps(cm(">=", n3(1, 2, 1)))}}, sv(1, 3, 2, []Ident{id("b")}))
+	// caret on zero majors, tilde on one number, `>` on partial versions
+	sem("agree", "npm", Range{[]Alt{comps(cm("^", np(0, 0, -1)))}}, sv(0, 1, 0, nil))
+	sem("agree", "npm", Range{[]Alt{comps(cm("~", np(1)))}}, sv(1, 9, 9, nil))
+	sem("agree", "npm", Range{[]Alt{comps(cm(">", np(1, 2)))}}, sv(1, 2, 9, nil))
+	sem("agree", "npm", Range{[]Alt{comps(cm(">", np(0)))}}, sv(0, 0, 0, nil))
+	sem("agree", "cargo", Range{[]Alt{comps(cm("", np(0, 0)))}}, sv(0, 0, 9, nil))
+	sem("agree", "cargo", Range{[]Alt{comps(cm("", n3(0, 0, 3)))}}, sv(0, 0, 4, nil))
+	sem("agree", "cargo", Range{[]Alt{comps(cm(">=", n3p(1, 2, 3, id("a"))), cm("<", n3(2, 0, 0)))}}, sv(1, 2, 3, []Ident{id("b")}))
+	// node accepts a partial upper bound of a hyphen range
+	sem("not-rejected", "npm", Range{[]Alt{{Hyphen: true, Lo: n3(1, 2, 3), Hi: np(2)}}}, sv(2, 9, 9, nil))
+	// PyPI: F7 (`!=2.0,==2.0.0` is empty), `~=`, prefix matching
+	p1 := PepSpec{Clauses: []PepClause{{Op: "!=", V: pv(2, 0)}, {Op: "==", V: pv(2, 0, 0)}}}
+	recs = append(recs, rec{"agree", "pypi", p1.Enc(), p1.Render(), pv(2, 0, 0).Enc(), pv(2, 0, 0).Render()})
+	p2 := PepSpec{Clauses: []PepClause{{Op: "~=", V: pv(0, 0)}}}
+	recs = append(recs, rec{"agree", "pypi", p2.Enc(), p2.Render(), pv(0, 1).Enc(), pv(0, 1).Render()})
+	p3 := PepSpec{Clauses: []PepClause{{Op: "==", V: pv(1, 0), Star: true}}}
+	recs = append(recs, rec{"agree", "pypi", p3.Enc(), p3.Render(), pv(1).Enc(), pv(1).Render()})
+	p4 := PepSpec{Clauses: []PepClause{{Op: "!=", V: pv(0, 0)}}}
+	recs = append(recs, rec{"-", "pypi", p4.Enc(), p4.Render(), pv(0, 0).Enc(), pv(0, 0).Render()})
+	// Maven: open/closed ends, soft requirement
+	m1 := MvnRange{Items: []MvnItem{{Kind: 'R', HasLo: true, Lo: MvnVer{Nums: []int64{1, 2}}}}}
+	recs = append(recs, rec{"agree", "maven", m1.Enc(), m1.Render(), MvnVer{Nums: []int64{1, 2, 0}}.Enc(), "1.2.0"})
+	m2 := MvnRange{Items: []MvnItem{{Kind: 'S', V: MvnVer{Nums: []int64{3}}}}}
+	recs = append(recs, rec{"agree", "maven", m2.Enc(), m2.Render(), MvnVer{Nums: []int64{1}, Qual: "alpha"}.Enc(), "1-alpha"})
+	for _, r := range recs {
+		sys := ecoSys[r.eco]
+		l0 := fmt.Sprintf("C03 match %s %s %s", sys, fw.Hx(r.rs), fw.Hx(r.vs))
+		if r.oracle == "not-rejected" {
+			l0 = fmt.Sprintf("C03 cparse %s %s", sys, fw.Hx(r.rs))
+		}
+		l1 := fmt.Sprintf("C03 refsat %s %s %s", r.eco, r.renc, r.venc)
+		res := []string{execOp(splitFields(l0)[1:]), execOp(splitFields(l1)[1:])}
+		if r.oracle != "-" {
+			if bad, detail := recheck(r.oracle, []string{l0, l1}, res); bad {
+				t.Errorf("corpus record fails: %q ~ %q: %s", r.rs, r.vs, detail)
+			}
+		}
+		fmt.Printf("CORPUS\t%s\t%s\t%s\n", r.oracle, l0, l1)
+	}
+}
